@@ -84,7 +84,7 @@ def slot_of_attrs(a):
     return None if single else (-1 if a['seq'] is None else a['seq'], a['chan'])
 
 
-_RUNS = []
+_RUNS = sc.READER_RUNS      # shared with stream_common.run_case: a later case's replay may need these runs as well
 _RUNS_OFF = []
 
 
